@@ -22,7 +22,7 @@ pub enum Frag {
     Leaf(u16, usize),
 }
 
-const EVIDENCE: usize = 9;
+const EVIDENCE: usize = 11;
 
 /// Environment leaves: code fragments that use the same leaf must still not influence each other's slots.
 const LEAVES: [u8; 17] = [
@@ -107,6 +107,18 @@ fn evidence(i: usize, s: U) -> Vec<Vec<Tok>> {
         8 => {
             // an address is loaded and the path then runs into INVALID with the value still on the stack
             vec![vec![pu(s), o(op::SLOAD), pu(addr_mask()), o(op::AND), o(op::DUP1), o(op::BALANCE), o(0xfe)]]
+        }
+        9 => {
+            // the top byte of the slot, masked once more with a wider mask (a nested sub-word that claims bits beyond 255)
+            let mut a = vec![pu(s), o(op::SLOAD), p(0xf8), o(op::SHR), p(0xff), o(op::AND), pu(U::from_u64(0xffff)), o(op::AND)];
+            a.extend(ret());
+            vec![a]
+        }
+        10 => {
+            // a two-byte field at the top of the slot read with DIV, then narrowed and widened again
+            let mut a = vec![pu(U::pow2(240)), pu(s), o(op::SLOAD), o(op::DIV), pu(U::from_u64(0xffff)), o(op::AND), p(0xff), o(op::AND), pu(U::from_u64(0xffff_ffff)), o(op::AND)];
+            a.extend(ret());
+            vec![a]
         }
         _ => {
             // timestamp stored, selector-sized field read from the same slot
@@ -221,6 +233,15 @@ fn check_pair_mode(a: &Frag, sa: U, b: &Frag, sb: U, d: Dispatcher, permissive: 
     let (Some(ea), Some(eb), Some(eab)) = (entries(&program(&ba, d), permissive), entries(&program(&bb, d), permissive), entries(&program(&both, d), permissive)) else {
         return Ok(None);
     };
+    // a fragment only touches its own slot, so alone it can only say something about that slot
+    for (e, own, which) in [(&ea, sa, "first"), (&eb, sb, "second")] {
+        if let Some((i, t)) = e.iter().find(|(i, _)| *i != own) {
+            return Err(Verdict {
+                key: format!("foreign-slot:{which}-fragment"),
+                what: format!("the {which} fragment only touches slot 0x{} but its layout has the entry 0x{}@{t}", own.hex_min(), i.hex_min()),
+            });
+        }
+    }
     let union: BTreeSet<(U, String)> = ea.union(&eb).cloned().collect();
     if union != eab {
         let changed: Vec<U> = union.symmetric_difference(&eab).map(|(i, _)| *i).collect();
@@ -359,11 +380,11 @@ impl Check for C11 {
         let n = family(tier).len();
         let rule = format!(
             "fragment family of {n} single-variable code fragments with an abstract slot (7 representative idiom kinds x 3 access modes \
-             x {} spellings{}, 4 uses (raw store, one-byte mask, signed compare, account address) of each of 17 environment opcodes and of 3 shared constants, 9 hand-written multi-evidence fragments: address use + zero test, caller stored + signed compare, counter, \
+             x {} spellings{}, 4 uses (raw store, one-byte mask, signed compare, account address) of each of 17 environment opcodes and of 3 shared constants, 11 hand-written multi-evidence fragments: address use + zero test, caller stored + signed compare, counter, \
              one-byte flag, length / call target, timestamp + selector-sized field, a path aborted by a jump to an invalid constant target or by INVALID with a \
-             loaded value still on the stack, an internal setter that stores the word it finds on the stack), each composition in strict and in permissive error mode. ALL ordered pairs (A, B) x 3 dispatcher shapes \
+             loaded value still on the stack, an internal setter that stores the word it finds on the stack, two reads of a field at the top of the slot that is masked again with a wider mask), each composition in strict and in permissive error mode. ALL ordered pairs (A, B) x 3 dispatcher shapes \
              (selector compare, reversed layout, two chained conditional jumps) x 2 slot assignments: layout(D(A,B)) must equal \
-             layout(D(A)) u layout(D(B)) as entry sets. Renumbering: two-fragment programs x all 30 injective maps of their slots \
+             layout(D(A)) u layout(D(B)) as entry sets, and layout(D(A)) must only have entries at A's slot. Renumbering: two-fragment programs x all 30 injective maps of their slots \
              into {{0, 1, 2, 77, 2^128+5, 2^255}} (changes PUSH widths, so programs are re-assembled): layout(rho(P)) = rho(layout(P)). \
              non-trivial = every comparison that produced layouts; distinct by (fragments, slots, dispatcher)",
             if tier.thorough() { 4 } else { 2 },
